@@ -234,8 +234,11 @@ func (fr *frame) execInstr(in ssa.Instruction, st *State) {
 		et := deref(x.Type())
 		fr.zeroInit(st, r, et)
 		fr.vals[x] = r
-		if !escapes(x) {
+		if !escapes(x) || !c.esc.valueEscapes(x) {
 			c.stable = append(c.stable, stableCell{addr: r, typ: et, stores: storesTo(x)})
+		}
+		if !c.esc.valueEscapes(x) {
+			c.markPrivate(st, r)
 		}
 	case *ssa.UnOp:
 		fr.execUnOp(x, st)
@@ -299,6 +302,10 @@ func (fr *frame) execInstr(in ssa.Instruction, st *State) {
 		c.R.MValHeapT(mt)
 		c.setHeap(st, dh, Store(c.getHeap(st, dh), r, T{"((as const " + ArraySort(ks, "Bool") + ") false)", ArraySort(ks, "Bool")}))
 		fr.vals[x] = r
+		if !c.esc.valueEscapes(x) {
+			c.localObjs = append(c.localObjs, localObj{ref: r, typ: x.Type()})
+			c.markPrivate(st, r)
+		}
 	case *ssa.MakeSlice:
 		ln, cp := fr.val(x.Len), fr.val(x.Cap)
 		fr.safety(st, "makeslice", "len/cap", And(le(IntLit(0), ln), le(ln, cp)), x.Pos())
@@ -309,6 +316,10 @@ func (fr *frame) execInstr(in ssa.Instruction, st *State) {
 			c.emit("(assert (forall ((i Int)) (! (= (select %s (ridx %s i)) %s) :pattern ((ridx %s i)))))", h.S, r.S, c.R.Zero(et).S, r.S)
 		}
 		fr.setVal(x, MkSlice(r, IntLit(0), ln, cp))
+		if !c.esc.valueEscapes(x) {
+			c.localObjs = append(c.localObjs, localObj{ref: r, typ: x.Type()})
+			c.markPrivate(st, r)
+		}
 	case *ssa.MakeChan:
 		fr.vals[x] = c.newObj(st, "chan")
 	case *ssa.MakeClosure:
@@ -410,6 +421,24 @@ func (fr *frame) execInstr(in ssa.Instruction, st *State) {
 		}
 		c.assume(st, And(le(lo, ts[0]), lt(ts[0], IntLit(n))))
 		fr.tuples[x] = ts
+		// ghost trace: a receive case taken counts as a call of "chan-recv:<operand>"
+		for i, s := range x.States {
+			if s.Dir == types.RecvOnly {
+				name := "chan-recv:" + operandName(s.Chan)
+				if c.tracked(name) {
+					c.R.Heap("Clock", "Int")
+					c.R.Heap(traceKey(name), "Int")
+					c.R.Heap("Last_"+sanitize(name), "Int")
+					c.trackedByKey[sanitize(name)] = name
+					taken := Eq(ts[0], IntLit(int64(i)))
+					cur := c.getHeap(st, traceKey(name))
+					c.setHeap(st, traceKey(name), Ite(taken, add(cur, IntLit(1)), cur))
+					clk := c.getHeap(st, "Clock")
+					c.setHeap(st, "Clock", Ite(taken, add(clk, IntLit(1)), clk))
+					c.setHeap(st, "Last_"+sanitize(name), Ite(taken, c.getHeap(st, "Clock"), c.getHeap(st, "Last_"+sanitize(name))))
+				}
+			}
+		}
 	case *ssa.If, *ssa.Jump:
 		// handled by edgeState
 	case *ssa.Return:
@@ -763,6 +792,9 @@ func (fr *frame) execSlice(x *ssa.Slice, st *State) {
 		// slicing a nil slice with 0:0 yields nil
 		res := MkSlice(SArr(b), add(SOff(b), l), sub(h, l), sub(cp, l))
 		fr.setVal(x, res)
+		if rv := fr.vals[x]; rv.S != b.S {
+			c.emit("(assert (forall ((j Int)) (! (= (selem %s j) (selem %s (+ %s j))) :pattern ((selem %s j)))))", rv.S, b.S, l.S, rv.S)
+		}
 	case *types.Pointer:
 		arr := under(u.Elem()).(*types.Array)
 		n := IntLit(arr.Len())
